@@ -111,7 +111,7 @@ def _work(args):
 def run(tier, seed, replay=None):
     assert_repo_import()
     chk = Check("C17", tier, seed)
-    model_ok = chk.proof_stage(["Scope/ScanFile.vo"])
+    model_ok = chk.proof_stage(["Scope/ScanFile.vo", "Scope/MarkerProofs.vo"])
     n = 300 if tier == "quick" else 8000
     jobs = []
     for lang in LC.LANGS:
